@@ -1218,8 +1218,18 @@ func c11SigValues(o *vfOut, r *vfRand) {
 			from, e := c11Sender(o, s, stx, det())
 			if e == nil {
 				R, S := stx.data.R, stx.data.S
-				if !(R.Sign() > 0 && R.Cmp(c11N) < 0 && S.Sign() > 0 && S.Cmp(c11HalfN) <= 0 && sig[64] < 2) {
-					o.Viol("c11-tx-malformed-accepted", det())
+				// the recovery id is judged on the V that SignatureValues stored, not on the input byte:
+				// `sig[64] + 27` / `sig[64] + 35` are byte additions and wrap (as upstream), so e.g.
+				// recid 247 under chain id 1 is stored as V = 28, a well-formed legacy signature
+				// (thorough tier, seed 2: reported as malformed-accepted by the first version of this clause)
+				V := stx.data.V
+				okV := V.Cmp(big.NewInt(27)) == 0 || V.Cmp(big.NewInt(28)) == 0
+				if c, isC := s.(ChainIDSigner); isC && !okV {
+					d := new(big.Int).Sub(V, c.chainIdMul)
+					okV = d.Cmp(big.NewInt(35)) == 0 || d.Cmp(big.NewInt(36)) == 0
+				}
+				if !(R.Sign() > 0 && R.Cmp(c11N) < 0 && S.Sign() > 0 && S.Cmp(c11HalfN) <= 0 && okV) {
+					o.Viol("c11-tx-malformed-accepted", det()+" V="+V.String())
 				}
 				if from == addr {
 					o.Viol("c11-random-signature-accepted", "Sender "+det())
